@@ -113,7 +113,7 @@ def build():
     )
     p.add(gitd)
 
-    def gitd_at_call(interp, env):
+    def gitd_at_call(interp, env, outcome):
         # at a call site the callee's ghosts (ITEMS/LRU/TOTAL/BL) are created as its own run creates them
         if "LRU" not in interp.ctx.ghost:
             get_items(interp, [], {})
